@@ -43,7 +43,7 @@ Lemma local_steps d a b : (forall i st, (i < d)%nat -> step m a st i = step m b 
   forall n st i, (i + n <= d)%nat -> steps m a st i n = steps m b st i n.
 Proof.
   intros H. induction n as [|n IH]; intros st i Hi; [reflexivity|].
-  cbn [steps]. rewrite H by lia. destruct (step m b st i) as [[st' o]| |]; try reflexivity.
+  rewrite !steps_S. rewrite H by lia. destruct (step m b st i) as [[st' o]| |]; try reflexivity.
   rewrite IH by lia. reflexivity.
 Qed.
 
@@ -78,7 +78,7 @@ Lemma running_steps tgt init upd keep src : forall n st i outs st',
 Proof.
   induction n as [|n IH]; intros st i outs st' H.
   - cbn in H. now inversion H.
-  - cbn [steps running step] in H. destruct (upd src st i) as [v| |]; cbn [bind] in H; try (inversion H; fail).
+  - rewrite steps_S in H. cbn [running step] in H. destruct (upd src st i) as [v| |]; cbn [bind] in H; try (inversion H; fail).
     destruct (steps (running tgt init upd keep) src v (S i) n) as [os r] eqn:E.
     inversion H; subst. rewrite prev_out_cons. eapply IH; eauto.
 Qed.
@@ -311,7 +311,7 @@ Lemma atl_ex_steps src : nozero src -> forall n st i outs st',
 Proof.
   intros Hnz. induction n as [|n IH]; intros st i outs st' Hb Hst H.
   - cbn in H. inversion H; subst. auto.
-  - cbn [steps m_atl_ex step] in H.
+  - rewrite steps_S in H. cbn [m_atl_ex step] in H.
     assert (Hv : at_ (sn src 0) i <> 0) by (apply Hnz; lia).
     assert (He : N.min st (at_ (sn src 0) i) <> 0) by lia.
     apply N.eqb_neq in He. rewrite He in H. cbn [negb] in H.
@@ -370,7 +370,7 @@ Lemma local_inv_steps d a b :
   forall n st i, (i + n <= d)%nat -> Inv b i st -> steps m a st i n = steps m b st i n.
 Proof.
   intros H Hp. induction n as [|n IH]; intros st i Hi Hinv; [reflexivity|].
-  cbn [steps]. rewrite H by (lia || assumption). destruct (step m b st i) as [[st' o]| |] eqn:E; try reflexivity.
+  rewrite !steps_S. rewrite H by (lia || assumption). destruct (step m b st i) as [[st' o]| |] eqn:E; try reflexivity.
   rewrite IH; [reflexivity|lia|eapply Hp; eauto].
 Qed.
 
@@ -393,7 +393,7 @@ Lemma sum_steps src : forall n ps pos i outs st',
 Proof.
   induction n as [|n IH]; intros ps pos i outs st' Hpos H.
   - cbn in H. inversion H; subst. cbn. now rewrite Nat.add_0_r.
-  - cbn [steps m_sum step] in H.
+  - rewrite steps_S in H. cbn [m_sum step] in H.
     destruct (par src <=? ni i) eqn:Ew.
     + destruct (Nat.ltb pos (slen src 0)); [|inversion H].
       destruct (at_ (sn src 0) pos <=? ps); [|inversion H].
